@@ -377,6 +377,53 @@ PROPS['C16'] = dict(
 )
 
 
+# ---------------------------------------------------------------- C18 (h_cinter)
+PROPS['C18'] = dict(
+    level_text='Differential exploration of call sequences: random sequences of up to 30 C calls over 1-3 handles (init, read from disk/memory good/truncated/missing incl. into an occupied handle, write, key access, accessors, '
+               'lookup and evaluation, convolve, permute, fit with good and bad arguments, grid evaluation, free, and guarded calls on handles without data), each shadowed by a C++ twin: the return code must be 0 iff the twin did '
+               'not throw, every returned number/string/array/file must be bit-equal, the C-side table must equal the twin after every call, no exception may cross the C boundary, and LeakSanitizer must be silent after all handles are freed.',
+    level_note=NOTE_COMMON + '; unguarded accessors are only called on handles that hold a table (documented precondition)',
+    technique='runtime differential monitor (C wrapper vs C++ twin) over random call histories, under ASan/UBSan/LSan',
+    targets=[T('h_cinter.cpp', 'asan')],
+    passes=lambda tier, sc: [Pass('asan', 'h_cinter.asan', 'C18', n(tier, 600, 10000, sc), env=LEAK_ENV, stall_s=300)],
+    level='exploration',
+    rule='case = one call sequence; distinct_nontrivial counts distinct sequences (hash of the (call kind, handle) sequence)',
+    assumptions=ASSUME_COMMON,
+    require={'any': {'calls:readsplinefitstable': 300, 'calls:splinetable_glamfit': 200, 'calls:splinetable_convolve': 50, 'calls:evaluation': 100, 'calls:on-null-data-handle': 50, 'calls:splinetable_free': 100}},
+)
+
+
+# ---------------------------------------------------------------- C19, C20 (h_mem)
+PROPS['C19'] = dict(
+    level_text='Exploration with a byte-counting allocator passed through the Alloc template parameter: live bytes are booked from the allocator\'s own pointer->size ledger, the peak is taken over construction '
+               'from the file plus the declared convolution, and compared with estimateMemory(path, n, dim). Files of 1-6 dimensions with mixed orders, 0-50 auxiliary keys of all lengths (incl. maximal), long knot vectors, '
+               'with and without EXTENTS/PERIOD, and KNOTSn extensions stored out of index order; evidence reports the minimum and distribution of the slack so erosion is visible before it becomes a violation.',
+    level_note=NOTE_COMMON + '; bytes requested are counted, not allocator fragmentation or alignment overhead (as the property is worded)',
+    technique='runtime monitor: byte-counting allocator (template parameter) vs estimateMemory',
+    targets=[T('h_mem.cpp', 'prod'), T('h_mem.cpp', 'asan')],
+    passes=lambda tier, sc: [Pass('prod', 'h_mem.prod', 'C19', n(tier, 320, 5000, sc), stall_s=300),
+                             Pass('asan', 'h_mem.asan', 'C19', n(tier, 60, 400, sc), stall_s=600)],
+    level='exploration',
+    rule='case = (table file, up to 5 declarations: no convolution and convolutions with 2-8 kernel knots in sampled dimensions); distinct_nontrivial counts distinct (file, declaration) pairs measured',
+    assumptions=ASSUME_COMMON,
+    require={'any': {'declarations-checked': 600, 'declarations-with-convolution': 300, 'files-with-knot-extensions-out-of-order': 40, 'files-with-a-long-knot-vector': 40}},
+)
+PROPS['C20'] = dict(
+    level_text='Model-based exploration plus fault enumeration: histories of 6-25 operations over 1-3 objects drawn from the whole public API with valid and invalid arguments (construct, path-construct good/bad, read good/truncated/missing into empty '
+               'and populated tables, fit good/bad, key edits, convolve, permute valid/invalid, move construction/assignment, comparison, write, getters+evaluation, grid evaluation, destroy) run with a checking allocator whose ledger detects leaks, double frees and '
+               'foreign pointers; after every operation the observable state is compared with the expectation (failed operation: unchanged or empty; populated table never silently overwritten; moved-from empty). Each history is then re-run with the k-th allocation '
+               'through the table\'s allocator throwing bad_alloc, for every k (sampled to 60 per history in the quick tier), transient and persistent; LeakSanitizer covers memory outside the allocator.',
+    level_note=NOTE_COMMON + '; move assignment into a populated target is implemented by swap: the source must then hold the target\'s former contents (valid, owned, released once)',
+    technique='runtime monitor: checking allocator ledger + abstract state model + allocation-failure enumeration, under ASan/UBSan/LSan',
+    targets=[T('h_mem.cpp', 'asan')],
+    passes=lambda tier, sc: [Pass('asan', 'h_mem.asan', 'C20', n(tier, 160, 3000, sc), env=LEAK_ENV, stall_s=600)],
+    level='fault_enumeration',
+    rule='case = one history, executed once without faults and then once per sampled allocation index with that allocation failing; distinct_nontrivial counts distinct executed (history, fault position) pairs',
+    assumptions=ASSUME_COMMON,
+    require={'any': {'histories': 100, 'faulted-histories': 2000, 'faults-fired': 1500}},
+)
+
+
 def all_targets():
     seen, out = set(), []
     for p in PROPS.values():
